@@ -176,4 +176,34 @@ theorem code_fpbase_384_square : embedded_pairing_core_arch_armv6_m_fpbase_384_s
     simp only [embedded_pairing_core_arch_armv6_m_fpbase_384_square, Array.toList_append]
   rw [h]
   decide +kernel
+set_option maxRecDepth 100000 in
+theorem size_bigint_768_multiply : embedded_pairing_core_arch_armv6_m_bigint_768_multiply.size = 3593 := by
+  rw [← Array.length_toList, code_bigint_768_multiply]; decide +kernel
+/-- running the generated program for its length = running the rebuilt instruction list -/
+theorem run_bigint_768_multiply (s : State) (hpc : s.pc = 0) : run embedded_pairing_core_arch_armv6_m_bigint_768_multiply s 3593 = runL Code.bigint_768_multiply s := by
+  rw [← size_bigint_768_multiply, run_eq_runL_toList _ _ hpc, code_bigint_768_multiply]
+set_option maxRecDepth 100000 in
+theorem size_bigint_768_square : embedded_pairing_core_arch_armv6_m_bigint_768_square.size = 1925 := by
+  rw [← Array.length_toList, code_bigint_768_square]; decide +kernel
+/-- running the generated program for its length = running the rebuilt instruction list -/
+theorem run_bigint_768_square (s : State) (hpc : s.pc = 0) : run embedded_pairing_core_arch_armv6_m_bigint_768_square s 1925 = runL Code.bigint_768_square s := by
+  rw [← size_bigint_768_square, run_eq_runL_toList _ _ hpc, code_bigint_768_square]
+set_option maxRecDepth 100000 in
+theorem size_fpbase_384_montgomery_reduce : embedded_pairing_core_arch_armv6_m_fpbase_384_montgomery_reduce.size = 3567 := by
+  rw [← Array.length_toList, code_fpbase_384_montgomery_reduce]; decide +kernel
+/-- running the generated program for its length = running the rebuilt instruction list -/
+theorem run_fpbase_384_montgomery_reduce (s : State) (hpc : s.pc = 0) : run embedded_pairing_core_arch_armv6_m_fpbase_384_montgomery_reduce s 3567 = runL Code.fpbase_384_montgomery_reduce s := by
+  rw [← size_fpbase_384_montgomery_reduce, run_eq_runL_toList _ _ hpc, code_fpbase_384_montgomery_reduce]
+set_option maxRecDepth 100000 in
+theorem size_fpbase_384_multiply : embedded_pairing_core_arch_armv6_m_fpbase_384_multiply.size = 7123 := by
+  rw [← Array.length_toList, code_fpbase_384_multiply]; decide +kernel
+/-- running the generated program for its length = running the rebuilt instruction list -/
+theorem run_fpbase_384_multiply (s : State) (hpc : s.pc = 0) : run embedded_pairing_core_arch_armv6_m_fpbase_384_multiply s 7123 = runL Code.fpbase_384_multiply s := by
+  rw [← size_fpbase_384_multiply, run_eq_runL_toList _ _ hpc, code_fpbase_384_multiply]
+set_option maxRecDepth 100000 in
+theorem size_fpbase_384_square : embedded_pairing_core_arch_armv6_m_fpbase_384_square.size = 5457 := by
+  rw [← Array.length_toList, code_fpbase_384_square]; decide +kernel
+/-- running the generated program for its length = running the rebuilt instruction list -/
+theorem run_fpbase_384_square (s : State) (hpc : s.pc = 0) : run embedded_pairing_core_arch_armv6_m_fpbase_384_square s 5457 = runL Code.fpbase_384_square s := by
+  rw [← size_fpbase_384_square, run_eq_runL_toList _ _ hpc, code_fpbase_384_square]
 end Jedi.Thumb1
